@@ -22,6 +22,10 @@ pub trait Model: Sync {
     type Op: Clone + Serialize + std::fmt::Debug + Send + Sync;
     type State;
     fn name(&self) -> String;
+    /// configuration from which the model can be rebuilt for a stand-alone replay
+    fn cfg_json(&self) -> Value {
+        Value::Null
+    }
     fn init(&self) -> Self::State;
     /// enabled letters in this state (computed from the live object: relative numbers etc.)
     fn ops(&self, s: &Self::State) -> Vec<Self::Op>;
@@ -139,7 +143,7 @@ pub fn bfs<M: Model>(m: &M, lim: &Limits, found: &mut Vec<Found>) -> BfsStats {
                         if vio_keys.insert(k) {
                             let mut hh: Vec<Value> = h.iter().map(|o| serde_json::to_value(o).unwrap()).collect();
                             hh.push(serde_json::to_value(&op).unwrap());
-                            found.push(Found { vio: v, replay: json!({"model": m.name(), "ops": hh}) });
+                            found.push(Found { vio: v, replay: json!({"model": m.name(), "cfg": m.cfg_json(), "ops": hh}) });
                         }
                     }
                     if !alive {
